@@ -10,8 +10,29 @@ Definition dec_gene (t : tree) : option gene :=
   | _ => match dec_prog t with Some (PI i) => Some (G i) | _ => None end
   end.
 
+(* genes overwritten in place: the genome that is translated is the edited one *)
+Fixpoint set_nth {X} (k : nat) (x : X) (l : list X) : list X :=
+  match l, k with [], _ => [] | _ :: r, O => x :: r | y :: r, S k' => y :: set_nth k' x r end.
+Definition apply_edits (g : list gene) (edits : list tree) : option (list gene) :=
+  fold_left (fun acc e => match acc, e with
+                          | Some g, L [A p; x] => if (0 <=? p) && (p <? Z.of_nat (length g))
+                                                  then option_map (fun x' => set_nth (Z.to_nat p) x' g) (dec_gene x) else None
+                          | _, _ => None end) edits (Some g).
+
+Definition judge_genes (g : list gene) (o : tree) : option (list Z) :=
+    match o with
+    | L [A (-1)] => Some [2]
+    | _ =>
+      olet q := tlist dec_prog o in
+      match parse_top g with
+      | Some p => Some [if list_eqb prog_eqb p q then 0 else 2]
+      | None => Some [3]
+      end
+    end.
+
 Definition judge (t : tree) : option (list Z) :=
   match t with
+  | L [L [A 4; g; L edits]; o] => olet g := tlist dec_gene g in olet g := apply_edits g edits in judge_genes g o
   | L [L [_; g]; o] =>
     olet g := tlist dec_gene g in
     match o with
